@@ -465,8 +465,9 @@ func shrinkCase(t *testing.T, p *Prop, in interface{}, meta caseMeta, cr caseRes
 	execs := 0
 	deadline := time.Now().Add(12 * time.Second)
 	budget := 400
+	exhausted := func() bool { return execs >= budget || time.Now().After(deadline) }
 	try := func(cand interface{}, m caseMeta, ch Choices) (caseResult, bool) {
-		if execs >= budget || time.Now().After(deadline) {
+		if exhausted() {
 			return caseResult{}, false
 		}
 		execs++
@@ -484,7 +485,7 @@ func shrinkCase(t *testing.T, p *Prop, in interface{}, meta caseMeta, cr caseRes
 		return in, meta, cr, execs
 	}
 	improved := true
-	for improved && execs < budget {
+	for improved && !exhausted() {
 		improved = false
 		// 1. simpler inputs
 		if p.Shrink != nil {
@@ -507,8 +508,8 @@ func shrinkCase(t *testing.T, p *Prop, in interface{}, meta caseMeta, cr caseRes
 			}
 		}
 		// 3. fewer context switches: replace chunks of picks by Stay
-		for chunk := len(cr.choices.Sched); chunk >= 1; chunk /= 2 {
-			for start := 0; start < len(cr.choices.Sched); start += chunk {
+		for chunk := len(cr.choices.Sched); chunk >= 1 && !exhausted() && len(cr.choices.Sched) < 50000; chunk /= 2 {
+			for start := 0; start < len(cr.choices.Sched) && !exhausted(); start += chunk {
 				cand := Choices{Sched: append([]int(nil), cr.choices.Sched...), Draws: cr.choices.Draws}
 				changed := false
 				for i := start; i < start+chunk && i < len(cand.Sched); i++ {
@@ -529,8 +530,8 @@ func shrinkCase(t *testing.T, p *Prop, in interface{}, meta caseMeta, cr caseRes
 			}
 		}
 		// 4. zero the draws
-		for chunk := len(cr.choices.Draws); chunk >= 1; chunk /= 2 {
-			for start := 0; start < len(cr.choices.Draws); start += chunk {
+		for chunk := len(cr.choices.Draws); chunk >= 1 && !exhausted() && len(cr.choices.Draws) < 50000; chunk /= 2 {
+			for start := 0; start < len(cr.choices.Draws) && !exhausted(); start += chunk {
 				cand := Choices{Sched: cr.choices.Sched, Draws: append([]int(nil), cr.choices.Draws...)}
 				changed := false
 				for i := start; i < start+chunk && i < len(cand.Draws); i++ {
